@@ -337,7 +337,7 @@ def canonical(cap):
             continue
         ren = {n: ("v", ident[n]) for n in free}
         cons.append((rel, _subst(l2, ren), _subst(r2, ren)))
-    return {"vars": out_vars, "cons": cons, "problems": problems}
+    return {"vars": out_vars, "cons": cons, "problems": problems, "ident": ident}
 
 
 # ======================================================================================
@@ -760,4 +760,179 @@ def to_coq_system(case, obs):
     if obs["status"] == "raised":
         return f"raises_cmp {call}"
     can = canonical(obs["cap"])
+    if can["problems"] and all(p.startswith("duplicate-name:") or p.startswith("variable-denotes-twice:")
+                               for p in can["problems"]):
+        # two variables with one GEKKO name: the solver refuses the model ("Duplicate Names"), nothing is returned
+        return f"raises_cmp {call}"
     return system_expr(call, can)
+
+
+# ======================================================================================
+# direct oracle on the system: does it force what the property needs?  If not: probe with the real solver
+# ======================================================================================
+PROBE_TOL = F(1, 10 ** 6)
+
+
+def linear_forms(can):
+    """[(is_eq, {vid: coef}, const)] of the (in)equations that are linear, as  sum coef*v + const (<=|==) 0."""
+    out = []
+    for rel, l, r in can["cons"]:
+        try:
+            p = p_add(poly(l), poly(r), -1)
+        except Unparsable:
+            continue
+        if any(len(m) > 1 for m in p):
+            continue
+        if rel == "GE":
+            p = {m: -q for m, q in p.items()}
+        elif rel not in ("LE", "EQ"):
+            continue
+        out.append((rel == "EQ", {m[0]: q for m, q in p.items() if m}, p.get((), F(0))))
+    return out
+
+
+def occupancy_gaps(case, obs, can):
+    """Cells whose occupancy (what extract_solution will read: sum over the netlist modules of model.a[name][c]) is
+    NOT forced to be <= 1 by a captured inequality (directly, or after replacing a variable by the captured
+    equality that defines it as a sum of other ratios), and ratio variables without the bounds [0, 1].
+    Sound as a filter: an empty answer means every feasible point has all occupancies <= 1 + (1 + #links) * tol."""
+    cap = obs["cap"]
+    consts = cap["consts"]["a"]
+    names = [m["name"] for m in case["mods"]]
+    ncells = len(obs["cells"])
+    bounds = {v: (lb, ub) for v, lb, ub in can["vars"]}
+    lin = linear_forms(can)
+    les = [(co, k) for eq, co, k in lin if not eq]
+    eqs = [(co, k) for eq, co, k in lin if eq]
+    gaps, loose = [], []
+    for c in range(ncells):
+        gv, gk = {}, F(0)
+        ok = True
+        for n in names:
+            if n not in consts and ("a", n, c) not in bounds:
+                ok = False                      # KeyError in extract_solution: nothing is returned
+                break
+            if str(c) in consts.get(n, {}) and ("a", n, c) not in bounds:
+                gk += consts[n][str(c)]
+            else:
+                v = ("a", n, c)
+                gv[v] = gv.get(v, 0) + 1
+                lb, ub = bounds.get(v, (None, None))
+                if lb is None or lb < 0 or ub is None or ub > 1:
+                    loose.append(v)
+        if not ok:
+            continue
+
+        def dominated(gv, gk):
+            for co, k in les:
+                if all(q >= 0 for q in co.values()) and all(co.get(v, 0) >= q for v, q in gv.items()) and \
+                        all(bounds.get(v, (None, None))[0] is not None and bounds[v][0] >= 0 for v in co) and \
+                        -k <= 1 - gk + F(1, 10 ** 9):
+                    return True
+            return False
+
+        if dominated(gv, gk):
+            continue
+        # replace v by its definition  v == sum w_i u_i + k  (w_i >= 0)
+        gv2, gk2 = dict(gv), gk
+        for v in list(gv):
+            for co, k in eqs:
+                q = co.get(v)
+                if q is None or q == 0:
+                    continue
+                rest = {u: -w / q for u, w in co.items() if u != v}
+                if all(w >= 0 for w in rest.values()):
+                    mult = gv2.pop(v)
+                    for u, w in rest.items():
+                        gv2[u] = gv2.get(u, 0) + mult * w
+                    gk2 += mult * (-k / q)
+                    break
+        if dominated(gv2, gk2):
+            continue
+        gaps.append(c)
+    return gaps, loose
+
+
+def oracle_system(case, obs):
+    from harness.props import c10
+    if obs["status"] != "built":
+        return None
+    cap = obs["cap"]
+    can = canonical(cap)
+    if can["problems"]:
+        return None
+    # fixed modules: every ratio is a constant, 1 in their own cells
+    for m in case["mods"]:
+        if m["fixed"]:
+            row = cap["consts"]["a"].get(m["name"], {})
+            if any(("a", m["name"], c) in {v for v, _, _ in can["vars"]} or str(c) not in row
+                   for c in range(len(obs["cells"]))):
+                return f"fixed/not-constant: allocation of fixed module {m['name']} is an optimisation variable"
+    gaps, loose = occupancy_gaps(case, obs, can)
+    if not gaps and not loose:
+        return None
+    res = probe_system(case, gaps, loose)
+    return res
+
+
+def probe_system(case, gaps, loose, max_cells=3):
+    """The system does not force occupancy <= 1 in the cells `gaps` (or leaves the ratio variables `loose` without
+    the bounds [0,1]): ask the real solver.  First the real problem (the objective of the code); then, per gap, the
+    same GEKKO model - the variables, bounds and equations the real code created, untouched - with the objective
+    replaced by 'maximise the occupancy of that cell'.  What the solver returns goes through the real
+    extract_solution and the property is checked on the result."""
+    from harness.props import c10
+    from gekko.gk_variable import GKVariable
+
+    def hook(model, die, cells, threshold, orig_solve):
+        g = model.gekko
+        mods0 = hook.mods0
+        W, H = case["die"]
+
+        def attempt(label):
+            try:
+                d2, alloc, _, _ = orig_solve(model, die, cells, threshold)
+            except Exception as e:
+                return None, f"{type(e).__name__}"
+            from harness.props import alloc_common as ac
+            out_cells = ac.alloc_obs(alloc)["cells"]
+            out_mods = [c10.module_obs(m) for m in d2.netlist.modules]
+            r = c10.check_result([W, H], mods0, out_mods, out_cells, c10.TOL)
+            if r:
+                return {"stage": label, "key": r[0], "why": r[1], "cells": out_cells}, None
+            return None, None
+
+        found, err = attempt("the optimisation problem as built by the code")
+        if found:
+            return found
+        tried = []
+        targets = [("cell", c) for c in gaps[:max_cells]] + [("var", v) for v in loose[:1]]
+        for kind, tg in targets:
+            if kind == "cell":
+                terms = [model.a[m.name][tg] for m in die.netlist.modules
+                         if m.name in model.a and isinstance(model.a[m.name].get(tg), GKVariable)]
+            else:
+                terms = [model.a[tg[1]][tg[2]]]
+            if not terms:
+                continue
+            obj = terms[0]
+            for tm in terms[1:]:
+                obj = obj + tm
+            g._objectives = []
+            g.Maximize(obj)
+            found, err = attempt(f"the same variables, bounds and equations with the objective replaced by "
+                                 f"'maximise the occupancy of cell {tg}'" if kind == "cell" else
+                                 f"the same system with the objective 'maximise {tg}'")
+            tried.append(err)
+            if found:
+                return found
+        return {"stage": None, "tried": tried}
+
+    obs0 = run_system(dict(case, _probe=True), solve_hook=None)
+    hook.mods0 = obs0.get("mods0", [])
+    obs = run_system(case, solve_hook=hook)
+    h = obs.get("hook") or {}
+    if h.get("stage"):
+        return (f"{h['key']}: {h['why']} - returned by the real solver and extract_solution for {h['stage']} "
+                f"(the captured system does not bound the occupancy of cells {gaps})")
+    return None
